@@ -280,7 +280,12 @@ func genInfl(r *Rng) inflCase {
 			w += "x"
 		}
 	}
-	return inflCase{which, Pick(r, c20Prefixes), w}
+	pre := Pick(r, c20Prefixes)
+	if r.Chance(12) && w != "" {
+		// a prefix that holds the word itself — repeated, or inside a longer word: only the last occurrence is the last word
+		pre = Pick(r, []string{w + "-to-", w + " and ", "foot" + w + " ", w + w + "-", "x" + w + "y ", w + " " + w + " "})
+	}
+	return inflCase{which, pre, w}
 }
 
 // ---- concurrent callers on a cold cache (sampling of schedules; with the -race build of the
